@@ -8,11 +8,11 @@ from .series_props import specs_solver, fold_canaries
 def check(tier, seed):
     d = Decision("C16", tier, seed)
     d.add_units(fold_canaries(run_units(specs_solver(tier) + specs_secondq(tier) + specs_direct(tier))))
-    d.add_lean(["PV.Direct.greens_solves", "PV.Direct.constrained_injective"])
+    d.add_lean(["PV.Direct.greens_solves", "PV.Direct.constrained_injective", "PV.Direct.matrix_greens_solves", "PV.Direct.matrix_constrained_injective"])
     d.assumptions += [
         "direct_greens_function: preconditions - kernel_vectors K / left_kernel_vectors L are bases of the right / left kernel of E - h with L^H K = 1 (established by the caller's "
         "biorthonormality check, contracts/bd_guards.py) and K spans the whole kernel; A-SC: pivoted QR of a full-column-rank n x k matrix returns k leading pivots whose rows form an "
-        "invertible k x k submatrix (this is what turns 'pivots of L' / 'pivots of K' into the row_gauge / col_gauge hypotheses of PV.Direct.*); the sparse LU / MUMPS solve is exact; "
+        "invertible k x k submatrix (this is what turns 'pivots of L' / 'pivots of K' into the row_gauge / col_gauge hypotheses; PV.Direct.matrix_greens_solves / matrix_constrained_injective derive everything else - idempotence of P, P M = M P = M, the gauge conditions on linear maps - from the matrix facts L^H K = 1, M K = 0, L^H M = 0); the sparse LU / MUMPS solve is exact; "
         "a real factorisation applied to real and imaginary part separately is the complex solve; with MUMPS and an empty kernel the symmetric storage flag additionally needs h symmetric "
         "(true for Hermitian real h; not checkable here - MUMPS is not installed)",
         "A-NP2 (linalg._constrain_matrix): tocoo() enumerates the stored entries once; boolean-mask indexing of parallel arrays keeps them aligned; np.concatenate appends; "
